@@ -129,9 +129,88 @@ def ap_parse(ap, argv):
     try:
         with contextlib.redirect_stderr(buf), contextlib.redirect_stdout(buf):
             ns = ap.parse_args(list(argv))
-        return ("ok", ns.db_path, ns.module, ns.path)
+        return ("ok", ns.db_path, ns.module, ns.path) + ((ns.no_create,) if hasattr(ns, "no_create") else ())
     except SystemExit as e:
         return ("exit", e.code)
+
+
+def table_parser2():
+    """the option table plus a value-less switch, as a parser might gain one"""
+    ap = table_parser()
+    ap.add_argument("-n", "--no_create", action="store_true")
+    ap.add_argument("targs", nargs="*")
+    return ap
+
+
+def test_derived_table():
+    from checks import c20
+
+    t0 = ref.table_from_parser(table_parser())
+    expect(t0.options == ref.DEFAULT_TABLE.options, f"table derived from the hand-written parser {t0.options}")
+    expect(c20.TOKENS == c20.HAND_WRITTEN_TOKENS, f"alphabet from the hand-written table {c20.TOKENS}")
+    t = ref.table_from_parser(table_parser2())
+    sw = [o for o in t.options if o.dest == "no_create"]
+    expect(len(sw) == 1 and sw[0].takes_value is False and sw[0].role == "own" and sw[0].strings == ("-n", "--no_create"), f"value-less switch {sw}")
+    expect(t.positionals == ("path", "targs"), f"positionals {t.positionals}")
+    toks = c20.tokens_for(t)
+    expect("-n" in toks and "--no_create" in toks and len(toks) == len(c20.TOKENS) + 2, f"alphabet gains the new option {toks}")
+    # hand-written expectations for a switch without value
+    for argv, exp in [
+        (["-n", "script.py", "a", "b"], ("ok", (("no_create", True),), (P, "script.py"), ("a", "b"))),
+        (["--no_create", "script.py", "-m", "x"], ("ok", (("no_create", True),), (P, "script.py"), ("-m", "x"))),
+        (["-n", "-m", "mod", "a"], ("ok", (("no_create", True),), (M, "mod"), ("a",))),
+        (["-n", "-d", "x", "s.py"], ("ok", (("no_create", True), ("db_path", "x")), (P, "s.py"), ())),
+        (["-d", "x", "-n", "s.py", "-n"], ("ok", (("db_path", "x"), ("no_create", True)), (P, "s.py"), ("-n",))),
+        (["--no", "s.py"], ("ok", (("no_create", True),), (P, "s.py"), ())),
+        (["-n"], ("ok", (("no_create", True),), None, ())),
+        (["--no_create=1", "s.py"], ("malformed", (), None, ())),
+        (["-d", "-n", "s.py"], ("malformed", (), None, ())),
+        (["-nx", "s.py"], ("unspecified", (), None, ())),
+        (["s.py", "-n"], ("ok", (), (P, "s.py"), ("-n",))),
+    ]:
+        p = ref.parse(argv, t)
+        expect((p.status, p.opts, p.target, p.targs) == exp, f"parse({argv}) with a switch = {(p.status, p.opts, p.target, p.targs)}, expected {exp}")
+    expect(ref.parse(["-n", "script.py", "a"], t).opt_forms == ("-n",) and c20.cli_shape(ref.parse(["-n", "script.py", "a"], t)) == "last-opt=-n,target=path,targs=n", "shape of a line with a switch")
+    expect(ref.parse(["-n", "s"], ref.DEFAULT_TABLE).status == "malformed", "-n is unknown to today's table")
+    nargs = argparse.ArgumentParser()
+    nargs.add_argument("-o", "--opt", nargs="?")
+    expect(ref.parse(["-o", "s"], ref.table_from_parser(nargs)).status == "unspecified", "nargs='?' is not modelled")
+    # the constructed lines put every own-option spelling directly before every way of naming the target
+    lines = set(c20.shaped_lines(t))
+    for own in (["-n"], ["--no_create"], ["-d", "x"], ["--db_path", "x"], ["--db_path=x"], ["-dx"], []):
+        for tgt in (["script.py"], ["-m", "mod"], ["--module", "mod"], ["--module=mod"], ["-mmod"], ["--", "script.py"]):
+            for args in ([], ["a"], ["a", "b"], ["-m"], ["--"], ["-d"], ["-m", "x"], ["-n"]):
+                expect(tuple(own + tgt + args) in lines, f"constructed lines lack {own + tgt + args}")
+    expect(("-n", "-dx", "script.py", "a", "b") in lines and ("--db_path=x", "--no_create", "-m", "mod", "a") in lines, "ordered pairs of own options")
+    # differential with argparse for the extended table
+    ap = table_parser2()
+    n = 0
+    for k in range(0, 5):
+        for argv in itertools.product(toks, repeat=k):
+            p = ref.parse(argv, t)
+            n += 1
+            if p.status == "ok":
+                own = argv[: len(argv) - len(p.targs)]
+                got = ap_parse(ap, own)
+                mod = p.target[1] if p.target and p.target[0] == "module" else None
+                path = p.target[1] if p.target and p.target[0] == "path" else None
+                want = ("ok", p.db_path, mod, path, any(d == "no_create" for d, _v in p.opts))
+                if got != want:
+                    expect(False, f"(switch table) argparse on {list(own)} of {list(argv)} gives {got}, reference {want}")
+                    if len(FAILS) > 20:
+                        return
+            elif p.status == "malformed" and ap_parse(ap, argv) != ("exit", 2):
+                expect(False, f"(switch table) argparse accepts {list(argv)} which the reference calls malformed: {p.why}")
+                if len(FAILS) > 20:
+                    return
+    print(f"  compared {n} lines with argparse for a table with a value-less switch")
+    # today's fakesnow against the hand-written table: a note, not a failure
+    try:
+        now = c20.cli_table()
+        if now != ref.DEFAULT_TABLE:
+            print("  NOTE: fakesnow.cli.arg_parser() differs from the hand-written table:", now.describe())
+    except Exception as e:  # noqa: BLE001
+        print("  NOTE: could not read fakesnow.cli.arg_parser():", e)
 
 
 def test_against_argparse():
@@ -358,9 +437,9 @@ def test_enumeration():
 
     for tier in ("quick", "thorough"):
         seen = set()
-        for it in c20.argv_items(tier):
+        for it in c20.argv_items(tier, c20.TOKENS):
             if it[0] == "argv":
-                seqs = c20.argv_block(it[1], it[2])
+                seqs = c20.argv_block(it[1], it[2], c20.TOKENS)
             else:
                 seqs = (s for k in range(0, it[1] + 1) for s in itertools.product(c20.TOKENS, repeat=k))
             for s in seqs:
@@ -369,12 +448,12 @@ def test_enumeration():
             if tier == "thorough" and len(seen) > 60000:
                 break  # the partition is the same construction; the full count is asserted by the check itself
         if tier == "quick":
-            expect(len(seen) == c20.expected_argv_count(tier), f"{tier}: {len(seen)} sequences, expected {c20.expected_argv_count(tier)}")
+            expect(len(seen) == c20.expected_argv_count(tier, c20.TOKENS), f"{tier}: {len(seen)} sequences, expected {c20.expected_argv_count(tier, c20.TOKENS)}")
             expect(max(map(len, seen)) == c20.MAX_LEN[tier] and () in seen, "length bounds")
 
 
 if __name__ == "__main__":
-    for t in (test_table, test_against_argparse, test_cli_oracle, test_patch_oracle, test_enumeration):
+    for t in (test_table, test_derived_table, test_against_argparse, test_cli_oracle, test_patch_oracle, test_enumeration):
         print(t.__name__)
         t()
     print("FAILED" if FAILS else "ok", f"({len(FAILS)} failures)")
